@@ -216,7 +216,7 @@ func c18CheckReplace(ctx *Ctx, res *Result, cases []c18Repl) {
 			res.AddViolation(Violation{Key: "C18/correspondence/replace",
 				What:       fmt.Sprintf("Replace(%q,%q) on %q: implementation %q, model %q", c.from, c.to, raw0, impl[i], model),
 				FoundInput: false, Size: len(c.text) + len(c.from) + len(c.to),
-				Replay:     map[string]any{"kind": "replace", "text": hx(c.text), "from": hx(c.from), "to": hx(c.to), "broken": "correspondence Autofix.Replace = Model.PatchSum.autofix_replace"}})
+				Replay: map[string]any{"kind": "replace", "text": hx(c.text), "from": hx(c.from), "to": hx(c.to), "broken": "correspondence Autofix.Replace = Model.PatchSum.autofix_replace"}})
 		}
 	}
 	res.Evaluations += len(kept)
